@@ -167,6 +167,18 @@ def run_case(arg):
                 if form == "1d":
                     w_arr = w_arr[:, 0]
                 w_in = w_arr.tolist() if form == "list" else w_arr
+            # memory layout: labels stored annotator-major and handed over as a transposed view (Fortran order), or the
+            # weights in Fortran order - position (i, a) of one array belongs to position (i, a) of the other whatever
+            # the layouts are
+            if isinstance(y_in, np.ndarray) and y_in.ndim == 2 and min(y_in.shape) > 1:
+                lay = int(rng.integers(4))
+                if lay in (1, 3):
+                    y_in = np.ascontiguousarray(y_in.T).T
+                if lay in (2, 3) and isinstance(w_in, np.ndarray):
+                    w_in = np.asfortranarray(w_in)
+                if lay:
+                    conc = dict(conc, memory_layout={1: "y Fortran-ordered", 2: "w Fortran-ordered",
+                                                     3: "y and w Fortran-ordered"}[lay])
             conc = dict(conc, w=repr(w_in))
             # an annotation loop re-uses its weight matrix while the label matrix fills up: before the observed
             # call the same weight array serves a call on an earlier stage of y (some labels still missing);
